@@ -51,6 +51,10 @@ func fullProject(work string, nsvc int) *types.Project {
 		if i > 2 {
 			s.DependsOn[svcName(1)] = types.ServiceDependency{Condition: types.ServiceConditionHealthy, Required: true}
 		}
+		if i <= 2 {
+			// an optional dependency on a service the project does not have (a disabled or absent one is tolerated when optional)
+			s.DependsOn["ghost"] = types.ServiceDependency{Condition: types.ServiceConditionStarted, Required: false}
+		}
 		s.Profiles = nil
 		if i == nsvc {
 			s.Profiles = []string{"extra"}
